@@ -619,7 +619,9 @@ class GBNFCompiler:
         rules: list[str] = []
 
         # Add primitives
-        rules.append("# GBNF Grammar for OCTAVE schema: " + schema.name)
+        # META.TYPE may be any scalar (TYPE::5 reads as an int): the name is only ever used as text
+        name = str(schema.name)
+        rules.append("# GBNF Grammar for OCTAVE schema: " + name)
         rules.append("")
 
         # Whitespace rule
@@ -657,7 +659,7 @@ class GBNFCompiler:
 
         # Build document structure
         if include_envelope:
-            schema_name = schema.name.upper()
+            schema_name = name.upper()
             rules.append(f'envelope-start ::= "==={schema_name}==="')
             rules.append('envelope-end ::= "===END==="')
             rules.append("")
